@@ -22,8 +22,9 @@ import (
 )
 
 type c10Desc struct {
-	Seed int64 `json:"seed"`
-	Big  int   `json:"big,omitempty"` // > 0: that many tiny sections (the index of the wrap is built from tens of thousands of records)
+	Seed  int64 `json:"seed"`
+	Giant bool  `json:"giant,omitempty"` // a header of more than 32 MiB (over the DEFAULT header limit), wrapped under a raised limit
+	Big   int   `json:"big,omitempty"`   // > 0: that many tiny sections (the index of the wrap is built from tens of thousands of records)
 }
 
 func mustWrite(p string, b []byte) {
@@ -63,10 +64,42 @@ func c10OtherFS() string {
 	return c10OtherFSDir
 }
 
+// c10Giant: a CARv1 whose header (34 identity roots of 1 MiB) is larger than the default
+// MaxAllowedHeaderSize; the caller raises the limit, and the options it passes are the ones that count.
+func c10Giant(t *mon.T, d c10Desc) {
+	r := gen.Rand(d.Seed)
+	var roots [][]byte
+	for i := 0; i < 34; i++ {
+		dg := make([]byte, 1<<20)
+		dg[0], dg[len(dg)-1] = byte(i), byte(r.Intn(256))
+		roots = append(roots, refcar.MakeCidV1(0x55, 0x00, dg))
+	}
+	b1 := gen.HonestBlock(r, gen.BlockOpts{Size: -1, MaxSize: 100, NoIdentity: true})
+	x := refcar.EncodeV1(roots, false, []refcar.Block{b1})
+	t.Nontrivial()
+	t.Cover("input:header-over-32MiB")
+	var out bytes.Buffer
+	err := carv2.WrapV1(bytes.NewReader(x), &out, carv2.MaxAllowedHeaderSize(64<<20))
+	t.Events(1)
+	if err != nil {
+		t.Violatef("WrapV1(header over the default limit, limit raised)/valid-input/error", "WrapV1 with MaxAllowedHeaderSize(64 MiB) of a CARv1 whose header has %d bytes failed: %v", len(x)-len(refcar.EncodeSection(b1.Cid, b1.Data)), err)
+		return
+	}
+	o := out.Bytes()
+	want := append(append([]byte{}, refcar.Pragma...), refcar.V2Header{DataOffset: 51, DataSize: uint64(len(x)), IndexOffset: 51 + uint64(len(x))}.Bytes()...)
+	if len(o) < len(want)+len(x) || !bytes.Equal(o[:len(want)], want) || !bytes.Equal(o[len(want):len(want)+len(x)], x) {
+		t.Violatef("WrapV1(header over the default limit, limit raised)/container/bytes-differ", "output is not pragma, header(51,%d,%d), unmodified source", len(x), 51+len(x))
+	}
+}
+
 func runC10(t *mon.T, raw json.RawMessage) {
 	var d c10Desc
 	if err := json.Unmarshal(raw, &d); err != nil {
 		panic(err)
+	}
+	if d.Giant {
+		c10Giant(t, d)
+		return
 	}
 	r := gen.Rand(d.Seed)
 	content := gen.MakeContent(r, gen.ContentOpts{MinBlocks: 0, MaxBlocks: 8, MaxRoots: 4, Dups: true, Synthetic: true, Boundaries: true, Block: gen.BlockOpts{MaxSize: 300}})
@@ -383,6 +416,7 @@ func genC10(g *mon.G) {
 	for i := 0; i < g.Pick(600, 10000); i++ {
 		g.Emit(c10Desc{Seed: r.Int63()})
 	}
+	g.Emit(c10Desc{Seed: r.Int63(), Giant: true})
 	for i := 0; i < g.Pick(2, 8); i++ {
 		g.Emit(c10Desc{Seed: r.Int63(), Big: []int{16500, 33000, 50000}[i%3] + r.Intn(3000)})
 	}
@@ -396,6 +430,6 @@ func init() {
 		Assumptions: []string{"reference encoder (refcar) for CARv2 renderings and spliced headers"},
 		Gen:         genC10,
 		Run:         runC10,
-		MinCover:    map[string]int{"wrap": 50, "extract:in-place": 50, "extract:larger-existing": 50, "replace-roots:same-size": 50, "replace-roots:different-size": 50, "wrapfile-over-larger-file": 10, "input:tens-of-thousands-of-sections": 2, "wrap-null-padded-source": 50, "extract:in-place-symlink": 50, "extract:in-place-hardlink": 50},
+		MinCover:    map[string]int{"wrap": 50, "extract:in-place": 50, "extract:larger-existing": 50, "replace-roots:same-size": 50, "replace-roots:different-size": 50, "wrapfile-over-larger-file": 10, "input:tens-of-thousands-of-sections": 2, "input:header-over-32MiB": 1, "wrap-null-padded-source": 50, "extract:in-place-symlink": 50, "extract:in-place-hardlink": 50},
 	})
 }
